@@ -253,6 +253,9 @@ _libs = {}
 
 
 def lib(config):
+    import os
+    if os.environ.get("VERIF_SANITIZE") and not config.startswith("san-"):
+        config = "san-" + config          # C17: the same call sequences under ASan + UBSan (python runs with the ASan runtime preloaded)
     if config not in _libs:
         _libs[config] = Lib(config)
     return _libs[config]
